@@ -321,6 +321,10 @@ type blockCase struct {
 	DenseN   int `json:"dense_n,omitempty"`
 	DensePay int `json:"dense_pay,omitempty"`
 	// size regime: one more item is appended so that the running total lands TailDelta bytes from the bound
+	// Prime: before the call under test, and under the same blacklist installation, AddTxsToBlock is given (on a scratch
+	// block) the items that touch only through a sender, re-signed by an unblocked key: same bodies, same transaction
+	// ids (the id does not cover the signature), different senders
+	Prime     bool `json:"prime,omitempty"`
 	Tune      bool `json:"tune,omitempty"`
 	TailDelta int  `json:"tail_delta,omitempty"`
 	TailGroup bool `json:"tail_group,omitempty"`
@@ -457,6 +461,7 @@ func genBlockCase(t *rapid.T) *blockCase {
 			c.Blocked = genBlocked(t)
 		}
 	}
+	c.Prime = len(c.Blocked) > 0 && rapid.Bool().Draw(t, "prime")
 	c.Height = genHeight(t, c.L, len(c.Blocked) > 0)
 	limit := c.L.maxAt(c.Height)
 	// a caller's block may already hold a miner transaction or two, never more than the limit
@@ -631,6 +636,34 @@ func runBlockCase(t lib.TB, c *blockCase) {
 	pool := make([]*types.Transaction, len(items))
 	for i, it := range items {
 		pool[i] = it.pool
+	}
+	if c.Prime && active {
+		free := who{K: 0}
+		for bl[free] {
+			if free.Eth = !free.Eth; !free.Eth {
+				free.K++
+			}
+		}
+		var twins []*types.Transaction
+		for _, it := range items {
+			tw := &item{Txs: append([]txSpec(nil), it.Txs...)}
+			resigned := false
+			for k := range tw.Txs {
+				if bl[tw.Txs[k].From] {
+					tw.Txs[k].From, resigned = free, true
+				}
+			}
+			if !resigned {
+				continue
+			}
+			tw.build(cfg, bl, sign)
+			if !tw.touch { // touched only through its senders
+				twins = append(twins, tw.pool)
+				lib.Class("primed_with_clean_signed_twin")
+			}
+		}
+		scratch := newBlock()
+		fx.bc.AddTxsToBlock(scratch, twins)
 	}
 	block := newBlock()
 	fx.bc.AddTxsToBlock(block, pool)
